@@ -376,3 +376,72 @@ def r_objattr_c17(repo, tier):
     if nreads < 2000:
         raise AnalysisError("R-OBJATTR: only %d attribute reads analysed" % nreads)
     return out
+
+
+def r_miscnone_c17(repo, tier):
+    """instruction.misc is a defaultdict whose missing entries read as None"""
+    import ast
+    from ..cfg import CFG
+    from ..harness import RuleOut
+    from ..index import norm
+
+    out = RuleOut(
+        "R-MISCNONE",
+        "`<ins>.misc` is a defaultdict whose absent entries read as None (arch/core.py).  Every place of amoco/arch that indexes into "
+        "an entry (`x.misc[k][j]`) does so only after a test of a misc entry: the same boolean expression tests one to its left, or "
+        "a test mentioning `.misc[` lies on every path from the function entry (enclosing if, or early return)",
+    )
+    core = repo.mod("amoco/arch/core.py")
+    if not any(isinstance(n, ast.Call) and norm(n.func) == "defaultdict" for n in ast.walk(core.classes["icore"].node)):
+        raise AnalysisError("R-MISCNONE: icore.misc is no longer a defaultdict (anchor changed)")
+    fs, info = reach(repo)
+    n = 0
+    for f in fs.values():
+        if not f.mod.name.startswith("amoco.arch."):
+            continue
+        sites = [x for x in ast.walk(f.node) if isinstance(x, ast.Subscript) and isinstance(x.ctx, ast.Load) and isinstance(x.value, ast.Subscript) and isinstance(x.value.value, ast.Attribute) and x.value.value.attr == "misc"]
+        if not sites:
+            continue
+        cfg = CFG(f.node, may_raise=lambda x: False)
+        tests = {nd.id for nd in cfg.nodes if nd.kind == "test" and nd.ast is not None and ".misc[" in norm(getattr(nd.ast, "test", nd.ast))}
+        # parents for BoolOp-left lookup
+        parents = {}
+        for p in ast.walk(f.node):
+            for ch in ast.iter_child_nodes(p):
+                parents[id(ch)] = p
+        for x in sites:
+            n += 1
+            guarded = False
+            # (a) an operand to the left in an enclosing `and` mentions .misc[ ; or the condition of an enclosing IfExp
+            cur = x
+            while id(cur) in parents and not guarded:
+                p = parents[id(cur)]
+                if isinstance(p, ast.BoolOp) and isinstance(p.op, ast.And):
+                    idx = next((k for k, v in enumerate(p.values) if v is cur), 0)
+                    if any(".misc[" in norm(v) for v in p.values[:idx]):
+                        guarded = True
+                if isinstance(p, ast.IfExp) and cur is not p.test and ".misc[" in norm(p.test):
+                    guarded = True
+                if isinstance(p, (ast.stmt,)):
+                    stmt = p
+                    break
+                cur = p
+            else:
+                stmt = None
+            # (b) dominated by a test mentioning .misc[
+            if not guarded and stmt is not None:
+                nd = cfg.stmt_node.get(id(stmt))
+                if nd is not None:
+                    if nd.kind == "test" and isinstance(stmt, (ast.If, ast.While)) and False:
+                        pass
+                    guarded = nd.id not in cfg.reachable_from(cfg.entry, avoid=tests - {nd.id}) or (nd.id in tests and False)
+                    if nd.id in tests:
+                        # the site sits in a test that itself mentions .misc[: is there an earlier one?
+                        guarded = nd.id not in cfg.reachable_from(cfg.entry, avoid=tests - {nd.id})
+            out.inst("%s::%s@%d" % (f.key, norm(x), x.lineno), {"function": f.dqual, "index": norm(x), "guarded": guarded})
+            if not guarded:
+                out.report(f.file, f.dqual, "index %s" % norm(x), x.lineno, "`%s` indexes a misc entry that reads as None when no prefix/flag set it, and no test of a misc entry precedes it: TypeError ('NoneType' object is not subscriptable) escapes the disassembler / formatter" % norm(x))
+    out.stats["sites"] = n
+    if n < 8:
+        raise AnalysisError("R-MISCNONE: only %d misc entry indexings found" % n)
+    return out
